@@ -278,6 +278,18 @@ def thread_local_rules(chk, P, prefix):
     chk.ob("%s.R7:callers" % prefix, "every caller of current/swap passes its own context id", callers_pass_self_id)
 
     def ids():
+        # the counter is as wide as the id (usize): no narrower cell that wraps early and no widening cast on the way out
+        cid = P.body(TL + "ctxt_id") if P.has_body(TL + "ctxt_id") else None
+        if cid is not None:
+            for bb, j, st in cid.statements(normal_only=True):
+                if st["k"] == "assign" and st["rv"]["k"] == "cast" and st["rv"].get("from_ty") in ("u8", "u16", "u32", "i8", "i16", "i32") and st["rv"].get("ty") in ("usize", "u64"):
+                    return False, ("ctxt_id() widens a %s counter to usize: the counter wraps after %s instances and hands out ids that are still in use "
+                                   "(and the shared context's id 0)" % (st["rv"]["from_ty"], {"u8": "256", "u16": "65536", "u32": "2^32"}.get(st["rv"]["from_ty"], "few"))), \
+                        [], "%s:%s" % (cid.file, st.get("line"))
+            for stat in P.statics.values() if isinstance(P.statics, dict) else P.statics:
+                nm = stat.get("path") or stat.get("key") or ""
+                if nm.endswith("NEXT_CTXT_ID") and not re.search(r"usize|u64|AtomicUsize|AtomicU64", stat.get("ty") or ""):
+                    return False, "the context id counter is a %s, narrower than the usize ids it hands out" % stat.get("ty"), [], stat.get("span")
         sh = P.body(TLC + "::shared")
         so = sh.origin(0)
         if so[0] != "agg":
